@@ -59,13 +59,16 @@ ProtoOf(mm) == IF mm >= PLen THEN "h2" ELSE "h1"
 
 DecisionOK(mm, proto) == (proto = "h2") <=> (mm >= PLen)   \* served as HTTP/2 exactly when the stream begins with the preface
 BytesOK(snt, sw)      == sw = snt                          \* the handler saw the client's bytes: none lost, duplicated, reordered
-AnswerOK(ans, rf)     == ans = rf                          \* answered as by the single-protocol server on the same bytes
+AnswerOK(ans, rf)     == ans \in rf                        \* answered as by the single-protocol server on the same bytes
+                                                           \* (rf: the set of answers that server gives to these bytes; on the
+                                                           \* real side hyper's own answer to some malformed streams depends
+                                                           \* on how they are fragmented, so it is a set)
 
 -----------------------------------------------------------------------------
 VARIABLES
     m, len, eof, ones,        \* the input: stream class; ones = the one-byte-at-a-time chunking
     sent,                     \* what the client sends (ids), fixed in Init
-    ref,                      \* the single-protocol server's answer to `sent`, fixed in Init
+    ref,                      \* the single-protocol server's answer(s) to `sent` (a set), fixed in Init
     arrived, chunkLeft, cuts, \* IO: bytes handed to a reader so far, rest of the chunk in flight, cuts so far
     pendOk,                   \* the IO may answer Pending now (at most one Pending between two deliveries)
     pc,                       \* "sniff" | "serve" | "done" | "cancelled"
@@ -105,7 +108,7 @@ Init ==
     /\ len \in (IF eof THEN m..Window ELSE {Window})
     /\ ones \in BOOLEAN
     /\ sent = Ids(1, len) \o (IF eof THEN <<>> ELSE <<Rest>>)
-    /\ ref = Respond(ProtoOf(m), sent)
+    /\ ref = {Respond(ProtoOf(m), sent)}
     /\ arrived = 0 /\ chunkLeft = 0 /\ cuts = 0 /\ pendOk = TRUE
     /\ pc = "sniff" /\ susp = TRUE /\ cancelled = FALSE
     /\ filled = 0 /\ version = "h2"          \* ReadVersion::new: version starts as Http2
